@@ -31,16 +31,93 @@ func enc(in input) json.RawMessage {
 	return b
 }
 
+// A unit of a together-run is a package directory of the main module ("a", "" = root) or "@<import path>": a package of
+// another on-disk module of the scenario (Module.Ext), requested by its import path.
 func entryOf(dirs []string) []string {
 	var e []string
 	for _, d := range dirs {
-		if d == "" {
+		switch {
+		case strings.HasPrefix(d, "@"):
+			e = append(e, d[1:])
+		case d == "":
 			e = append(e, ".")
-		} else {
+		default:
 			e = append(e, "./"+d)
 		}
 	}
 	return e
+}
+
+// unitPath: the import path of a unit.
+func unitPath(m *pipe.Module, d string) string {
+	if strings.HasPrefix(d, "@") {
+		return d[1:]
+	}
+	return m.PkgPath(d)
+}
+
+// twoModules: ONE run over packages of TWO modules — the application module and a library it uses through
+// `replace => ../lib` (or a nested module), both named as entrypoints — which differ in what the formatter looks at: go
+// directives on either side of 1.13 (0644 is rewritten to 0o644 from go 1.13 on) and a dot-less module path (gofumpt keeps
+// imports of the file's own module apart from the standard library; a dot-less path of ANOTHER module looks like std).
+// appFirst: the application's import paths sort before the library's (Execute walks the packages in sorted order).
+func twoModules(appPath, appGo, libPath, libGo, libDir string, custom bool) input {
+	const perm = "func (%s) Perm() int { return 0644 }\n"
+	libName := libPath[strings.LastIndex(libPath, "/")+1:]
+	m := pipe.Module{ModPath: appPath, GoVer: appGo, Pkgs: []pipe.Pkg{
+		{Dir: "p", Name: "p", XImports: []string{libPath + "/q"}, Types: []pipe.Type{{Name: "File", Enabled: []string{"perm"}}}},
+		{Dir: "p2", Name: "p2", Types: []pipe.Type{{Name: "Dir", Enabled: []string{"perm"}}}}},
+		Ext: []pipe.ExtMod{{Dir: libDir, ModPath: libPath, GoVer: libGo, Pkgs: []pipe.Pkg{
+			{Dir: "q", Name: "q", Imports: []string{"inner"}, Types: []pipe.Type{{Name: "Mode", Enabled: []string{"perm"}}}},
+			{Dir: "inner", Name: "inner", Types: []pipe.Type{{Name: "X"}}}}}}}
+	_ = libName
+	steps := map[string]pipe.Step{
+		appPath + "/p File": {Body: fmt.Sprintf(perm, "File"), Use: []string{"strings.Builder", libPath + "/q.Mode"}},
+		appPath + "/p2 Dir": {Body: fmt.Sprintf(perm, "Dir")},
+		libPath + "/q Mode": {Body: fmt.Sprintf(perm, "Mode"), Use: []string{"strings.Builder", libPath + "/inner.X"}}}
+	lq := "@" + libPath + "/q"
+	return input{Scenario: pipe.Scenario{Module: m, Base: "zz_generated", Gens: []pipe.Gen{{Name: "perm", CustomNew: custom, Steps: steps}}},
+		Together: [][]string{{"p", lq}, {lq, "p"}, {"p", "p2", lq}, {"p2", lq}, {"p", "p2"}}}
+}
+
+func twoModuleCorner() []input {
+	return []input{
+		twoModules("example.com/zapp", "1.22", "example.com/lib", "1.12", "../lib", false), // the old library's packages come first
+		twoModules("example.com/app", "1.22", "example.com/lib", "1.12", "../lib", true),   // the application's come first
+		twoModules("example.com/app", "1.21", "example.com/app/lib", "1.11", "lib", false), // nested module
+		twoModules("example.com/zapp", "1.22", "alib", "1.22", "../alib", false),           // same language version, dot-less library path
+		twoModules("example.com/app", "1.22", "zlib", "1.12", "../zlib", true),             // both differ
+		twoModules("app", "1.22", "example.com/lib", "1.22", "../lib", false),              // dot-less application path
+	}
+}
+
+// twoModuleScenario draws such an input.
+func twoModuleScenario(r *core.RNG) input {
+	app := core.Pick(r, []string{"example.com/app", "example.com/zapp", "app", "zapp", "m.test/x/app"})
+	lib := core.Pick(r, []string{"example.com/lib", "alib", "zlib", "example.com/m/lib", "lib.test/v2"})
+	if r.Chance(20) {
+		lib = app + "/lib"
+	}
+	appGo := core.Pick(r, []string{"1.22", "1.21", "1.23", "1.13"})
+	libGo := core.Pick(r, []string{"1.12", "1.12", "1.11", "1.13", appGo})
+	libDir := "../lib"
+	if r.Chance(30) {
+		libDir = "lib"
+	}
+	in := twoModules(app, appGo, lib, libGo, libDir, r.Chance(40))
+	if r.Chance(50) { // without the import tracker the runs are compared with the model in Coq as well
+		for k, st := range in.Gens[0].Steps {
+			st.Use = nil
+			in.Gens[0].Steps[k] = st
+		}
+	}
+	if r.Chance(50) {
+		for k, st := range in.Gens[0].Steps {
+			st.Count, st.Helper = r.Bool(), r.Bool()
+			in.Gens[0].Steps[k] = st
+		}
+	}
+	return in
 }
 
 func corner() []input {
@@ -358,6 +435,16 @@ func (prop) Generate(r *core.RNG, tier string) []json.RawMessage {
 	for _, in := range corner() {
 		out = append(out, enc(in))
 	}
+	for _, in := range twoModuleCorner() {
+		out = append(out, enc(in))
+	}
+	ntm := 4
+	if tier == "thorough" {
+		ntm = 30
+	}
+	for i := 0; i < ntm; i++ {
+		out = append(out, enc(twoModuleScenario(r)))
+	}
 	for i := 0; i < n; i++ {
 		var sc pipe.Scenario
 		for try := 0; try < 20; try++ {
@@ -469,6 +556,13 @@ func coqRun(o *pipe.Observation) string {
 
 func done(o *pipe.Observation) bool { return o.Run.Result != nil && o.Run.Result.Class == "done" }
 
+// goOld: a go directive before 1.13 (no 0o octal literals).
+func goOld(v string) bool {
+	var maj, min int
+	_, _ = fmt.Sscanf(v, "%d.%d", &maj, &min)
+	return maj == 1 && min < 13
+}
+
 func dirOf(p string) string {
 	if i := strings.LastIndex(p, "/"); i >= 0 {
 		return p[:i]
@@ -534,20 +628,29 @@ func (prop) Run(raw json.RawMessage, scratch string) core.Result {
 			requested[d] = true
 		}
 	}
+	var units []string
 	for _, p := range in.Module.Pkgs {
-		if !requested[p.Dir] { // never compared: only loaded (or processed under All) next to the requested ones
+		units = append(units, p.Dir)
+	}
+	for _, x := range in.Module.Ext {
+		for _, p := range x.Pkgs {
+			units = append(units, "@"+x.PkgPath(p.Dir))
+		}
+	}
+	for _, u := range units {
+		if !requested[u] { // never compared: only loaded (or processed under All) next to the requested ones
 			continue
 		}
-		o, ok := runOne([]string{p.Dir})
+		o, ok := runOne([]string{u})
 		if !ok {
 			res.Tags = append(res.Tags, "run-failed-to-start")
 			res.Observed = obs
 			return res
 		}
-		path := in.Module.PkgPath(p.Dir)
+		path := unitPath(&in.Module, u)
 		singles[path] = o
 		singlePaths = append(singlePaths, path)
-		obs.Singles[path] = runObs{Entry: []string{p.Dir}, Summary: o.Summary()}
+		obs.Singles[path] = runObs{Entry: []string{u}, Summary: o.Summary()}
 	}
 	sort.Strings(singlePaths)
 	res.Observed = obs
@@ -602,6 +705,16 @@ func (prop) Run(raw json.RawMessage, scratch string) core.Result {
 	}
 	res.Nontrivial = compared > 0 && len(in.Module.Pkgs) >= 2
 	res.Tags = []string{fmt.Sprintf("packages:%d", len(in.Module.Pkgs)), fmt.Sprintf("together-runs:%d", len(in.Together))}
+	for _, x := range in.Module.Ext {
+		res.Tags = append(res.Tags, "two-modules-in-one-run")
+		if goOld(x.GoVer) != goOld(in.Module.GoVer) {
+			res.Tags = append(res.Tags, "two-modules:go-directives-on-either-side-of-1.13")
+		}
+		if !strings.Contains(strings.SplitN(x.ModPath, "/", 2)[0], ".") || !strings.Contains(strings.SplitN(in.Module.ModPath, "/", 2)[0], ".") {
+			res.Tags = append(res.Tags, "two-modules:dot-less-module-path")
+		}
+		break
+	}
 	if in.All {
 		res.Tags = append(res.Tags, "all")
 	} else {
